@@ -531,3 +531,452 @@ Proof. vm_compute. reflexivity. Qed.
 Example chain_example_hyps :
   all_same_sc (attr_pairs (ctx_of (B "a") (B "href") (B "/foo?x="))) [] None = Some SC_TRUOrURL /\ sc_is_url SC_TRUOrURL = true.
 Proof. split; vm_compute; reflexivity. Qed.
+
+(* ================================================================== *)
+(* Part D: static prefixes that must be rejected are rejected *)
+
+Lemma go_match_cls rs (w : list N) c : wf_runes w -> In c w -> in_ranges c rs = true ->
+  go_match (Cls rs) w = true.
+Proof.
+  intros Hw Hin Hc. apply (go_match_M _ _ Hw). apply in_split in Hin as (a & b & ->).
+  exists a, [c], b. split; [reflexivity|]. constructor. exact Hc.
+Qed.
+
+Lemma go_match_cls_inv rs (w : list N) : wf_runes w -> go_match (Cls rs) w = true ->
+  exists c, In c w /\ in_ranges c rs = true.
+Proof.
+  intros Hw H. apply (go_match_M _ _ Hw) in H as (a & m & b & -> & H).
+  apply M_Cls_inv in H as (c & -> & Hc). exists c. split; [|exact Hc].
+  apply in_or_app. right. left. reflexivity.
+Qed.
+
+Lemma ws_or_ctrl_small c : ws_or_ctrl c = true -> c < 128 /\ in_ranges c [(0, 32); (127, 127)] = true.
+Proof. unfold ws_or_ctrl, in_ranges, in_range. cbn [existsb fst snd]. lia. Qed.
+
+Lemma ws_spec_match (p : bytes) : has_ws_or_ctrl p = true -> go_match S_ws (decode_runes p) = true.
+Proof.
+  unfold has_ws_or_ctrl. intros H. apply existsb_exists in H as (c & Hin & Hc).
+  destruct (ws_or_ctrl_small c Hc) as [Hs Hr].
+  apply (go_match_cls _ _ c (wf_decode p)); [|exact Hr]. apply (proj1 (decode_in_ascii p c Hs)). exact Hin.
+Qed.
+
+Lemma ws_rejected (p : bytes) : has_ws_or_ctrl p = true ->
+  go_match_bytes G_containsWhitespaceOrControlPattern p = true.
+Proof.
+  intros H. unfold go_match_bytes. eapply go_incl; [exact bridge_ws_ok|]. apply ws_spec_match. exact H.
+Qed.
+
+(* conversely: where the code's pattern does not match there is no such code point *)
+Lemma no_ws_runes (w : list N) : wf_runes w -> go_match G_containsWhitespaceOrControlPattern w = false ->
+  Forall (fun c => c0_or_space c = false) w.
+Proof.
+  intros Hw H. apply Forall_forall. intros c Hin. destruct (c0_or_space c) eqn:E; [|reflexivity].
+  assert (M : go_match S_ws w = true).
+  { apply (go_match_cls _ _ c Hw Hin). unfold c0_or_space in E. unfold in_ranges, in_range. cbn [existsb fst snd]. lia. }
+  pose proof (go_incl _ _ bridge_ws_ok w M) as G. congruence.
+Qed.
+
+(* ---- suffix recognisers ---- *)
+Lemma M_cat_end a p (s : list N) : M a p s None -> M (Cat a EndText) p s None.
+Proof. intros H. rewrite <- (app_nil_r s). constructor; [exact H | constructor]. Qed.
+
+Lemma cls_forall (f : N -> bool) rs (l : list N) : (forall c, f c = true -> in_ranges c rs = true) ->
+  forallb f l = true -> Forall (fun c => in_ranges c rs = true) l.
+Proof.
+  intros Hf H. apply Forall_forall. intros c Hin. rewrite forallb_forall in H. apply Hf. apply H. exact Hin.
+Qed.
+
+Lemma alpha_cls c : sp_alpha c = true -> in_ranges c C_alpha = true.
+Proof. unfold sp_alpha, in_ranges, in_range, C_alpha. cbn [existsb fst snd]. lia. Qed.
+Lemma alnum_cls c : sp_alnum c = true -> in_ranges c C_alnum = true.
+Proof. unfold sp_alnum, sp_alpha, sp_digit, in_ranges, in_range, C_alnum. cbn [existsb fst snd]. lia. Qed.
+Lemma digit_cls c : sp_digit c = true -> in_ranges c C_digit = true.
+Proof. unfold sp_digit, in_ranges, in_range, C_digit. cbn [existsb fst snd]. lia. Qed.
+Lemma hex_cls c : sp_hex c = true -> in_ranges c C_hex = true.
+Proof. unfold sp_hex, sp_digit, in_ranges, in_range, C_hex. cbn [existsb fst snd]. lia. Qed.
+
+Lemma ascii_forall (f : N -> bool) (l : list N) : (forall c, f c = true -> c < 128) ->
+  forallb f l = true -> Forall (fun c => c < 128) l.
+Proof.
+  intros Hf H. apply Forall_forall. intros c Hin. rewrite forallb_forall in H. apply Hf. apply H. exact Hin.
+Qed.
+Lemma alnum_small c : sp_alnum c = true -> c < 128.
+Proof. unfold sp_alnum, sp_alpha, sp_digit. lia. Qed.
+Lemma hex_small c : sp_hex c = true -> c < 128.
+Proof. unfold sp_hex, sp_digit. lia. Qed.
+Lemma digit_small c : sp_digit c = true -> c < 128.
+Proof. unfold sp_digit. lia. Qed.
+
+Lemma charref_tail_ascii (r : bytes) : charref_tail r = true -> Forall (fun c => c < 128) r.
+Proof.
+  destruct r as [|d r]; [constructor|]. cbn [charref_tail]. destruct (sp_alpha d) eqn:Ea.
+  - intros H. constructor; [unfold sp_alpha in Ea; lia | exact (ascii_forall _ _ alnum_small H)].
+  - destruct (d =? 35) eqn:E35; [|discriminate]. apply N.eqb_eq in E35. subst d.
+    destruct r as [|x r']; [intros _; repeat constructor|].
+    destruct ((x =? 120) || (x =? 88)) eqn:Ex; intros H.
+    + constructor; [reflexivity|]. constructor; [lia | exact (ascii_forall _ _ hex_small H)].
+    + constructor; [reflexivity | exact (ascii_forall _ _ digit_small H)].
+Qed.
+
+Lemma charref_tail_M (r : bytes) p : charref_tail r = true -> M S_charref_tail p r None.
+Proof.
+  unfold S_charref_tail. destruct r as [|d r]; [intros _; apply MAltL; constructor|].
+  cbn [charref_tail]. destruct (sp_alpha d) eqn:Ea.
+  - intros H. apply MAltR, MAltL. change (d :: r) with ([d] ++ r). constructor.
+    + constructor. apply alpha_cls. exact Ea.
+    + apply star_cls_M. exact (cls_forall _ _ _ alnum_cls H).
+  - destruct (d =? 35) eqn:E35; [|discriminate]. apply N.eqb_eq in E35. subst d.
+    intros H. apply MAltR, MAltR. change (35 :: r) with ([35] ++ r). constructor; [constructor; reflexivity|].
+    destruct r as [|x r']; [apply MAltL; constructor|].
+    destruct ((x =? 120) || (x =? 88)) eqn:Ex.
+    + apply MAltR. change (x :: r') with ([x] ++ r'). constructor.
+      * constructor. unfold in_ranges, in_range. cbn [existsb fst snd]. lia.
+      * apply star_cls_M. exact (cls_forall _ _ _ hex_cls H).
+    + apply MAltL. apply star_cls_M. exact (cls_forall _ _ _ digit_cls H).
+Qed.
+
+Lemma partial_charref_split (p : bytes) : ends_with_partial_charref p = true ->
+  exists a r, p = a ++ 38 :: r /\ charref_tail r = true.
+Proof.
+  induction p as [|c t IH]; [discriminate|]. cbn [ends_with_partial_charref]. intros H.
+  apply orb_true_iff in H as [H|H].
+  - apply andb_true_iff in H as [Hc Ht]. apply N.eqb_eq in Hc. subst c. exists [], t. split; [reflexivity | exact Ht].
+  - destruct (IH H) as (a & r & -> & Hr). exists (c :: a), r. split; [reflexivity | exact Hr].
+Qed.
+
+Lemma charref_spec_match (p : bytes) : ends_with_partial_charref p = true ->
+  go_match S_charref (decode_runes p) = true.
+Proof.
+  intros H. destruct (partial_charref_split p H) as (a & r & -> & Hr).
+  apply (go_match_M _ _ (wf_decode _)).
+  rewrite decode_app_ascii by reflexivity. rewrite (decode_runes_ascii r (charref_tail_ascii r Hr)).
+  exists (decode_runes a), (38 :: r), []. split; [rewrite app_nil_r; reflexivity|].
+  unfold S_charref. change (38 :: r) with ([38] ++ r). constructor; [constructor; reflexivity|].
+  apply M_cat_end. apply charref_tail_M. exact Hr.
+Qed.
+
+Lemma charref_rejected (p : bytes) : ends_with_partial_charref p = true ->
+  validate_no_charref_prefix p = false.
+Proof.
+  intros H. unfold validate_no_charref_prefix, go_match_bytes. apply negb_false_iff.
+  eapply go_incl; [exact bridge_charref_ok|]. apply charref_spec_match. exact H.
+Qed.
+
+Lemma partial_pct_split (d : bytes) : ends_with_partial_pct d = true ->
+  exists a r, d = a ++ 37 :: r /\ pct_tail r = true.
+Proof.
+  induction d as [|c t IH]; [discriminate|]. cbn [ends_with_partial_pct]. intros H.
+  apply orb_true_iff in H as [H|H].
+  - apply andb_true_iff in H as [Hc Ht]. apply N.eqb_eq in Hc. subst c. exists [], t. split; [reflexivity | exact Ht].
+  - destruct (IH H) as (a & r & -> & Hr). exists (c :: a), r. split; [reflexivity | exact Hr].
+Qed.
+
+Lemma pct_spec_match (d : bytes) : ends_with_partial_pct d = true -> go_match S_pct (decode_runes d) = true.
+Proof.
+  intros H. destruct (partial_pct_split d H) as (a & r & -> & Hr).
+  apply (go_match_M _ _ (wf_decode _)). rewrite decode_app_ascii by reflexivity.
+  assert (Hra : Forall (fun c => c < 128) r).
+  { destruct r as [|h [|? ?]]; try discriminate; [constructor|]. cbn [pct_tail] in Hr. repeat constructor. apply hex_small; exact Hr. }
+  rewrite (decode_runes_ascii r Hra).
+  exists (decode_runes a), (37 :: r), []. split; [rewrite app_nil_r; reflexivity|].
+  unfold S_pct. change (37 :: r) with ([37] ++ r). constructor; [constructor; reflexivity|].
+  apply M_cat_end. destruct r as [|h [|? ?]]; try discriminate.
+  - apply MAltL. constructor.
+  - apply MAltR. constructor. apply hex_cls. exact Hr.
+Qed.
+
+Lemma pct_rejected (d : bytes) : ends_with_partial_pct d = true ->
+  go_match_bytes G_endsWithPercentEncodingPrefixPattern d = true.
+Proof.
+  intros H. unfold go_match_bytes. eapply go_incl; [exact bridge_pct_ok|]. apply pct_spec_match. exact H.
+Qed.
+
+Lemma decode_url_prefix_some (p d : bytes) : decode_url_prefix p = Some d ->
+  d = html_unescape p /\
+  go_match_bytes G_containsWhitespaceOrControlPattern p = false /\
+  validate_no_charref_prefix p = true /\
+  go_match_bytes G_containsWhitespaceOrControlPattern d = false /\
+  go_match_bytes G_endsWithPercentEncodingPrefixPattern d = false.
+Proof.
+  unfold decode_url_prefix.
+  destruct (go_match_bytes G_containsWhitespaceOrControlPattern p) eqn:E1; [discriminate|].
+  destruct (validate_no_charref_prefix p) eqn:E2; cbn [negb]; [|discriminate].
+  destruct (go_match_bytes G_containsWhitespaceOrControlPattern (html_unescape p)) eqn:E3; [discriminate|].
+  destruct (go_match_bytes G_endsWithPercentEncodingPrefixPattern (html_unescape p)) eqn:E4; [discriminate|].
+  intros H. inversion H; subst. auto.
+Qed.
+
+(* C14_prefix_rejected, first half *)
+Theorem prefix_rejected_decode (p : bytes) :
+  has_ws_or_ctrl p = true \/ has_ws_or_ctrl (html_unescape p) = true \/
+  ends_with_partial_charref p = true \/ ends_with_partial_pct (html_unescape p) = true ->
+  decode_url_prefix p = None.
+Proof.
+  intros H. destruct (decode_url_prefix p) as [d|] eqn:E; [|reflexivity]. exfalso.
+  apply decode_url_prefix_some in E as (-> & E1 & E2 & E3 & E4).
+  destruct H as [H|[H|[H|H]]].
+  - rewrite (ws_rejected p H) in E1. discriminate.
+  - rewrite (ws_rejected _ H) in E3. discriminate.
+  - rewrite (charref_rejected p H) in E2. discriminate.
+  - rewrite (pct_rejected _ H) in E4. discriminate.
+Qed.
+
+(* ---- a prefix that could still be completed into a scheme ---- *)
+Lemma last_or_none_nil {A} (a : list A) : last_or a None = None -> a = [].
+Proof.
+  destruct a as [|x a]; [reflexivity|]. cbn [last_or].
+  assert (G : forall (l : list A) y, last_or l (Some y) <> None).
+  { induction l as [|z l IH]; intros y; cbn [last_or]; [discriminate | apply IH]. }
+  intros H. exfalso. exact (G a x H).
+Qed.
+
+Lemma scheme_cls_sp c : in_ranges c C_scheme = true -> sp_scheme_char c = true /\ c < 128 /\ c <> 58.
+Proof.
+  unfold in_ranges, in_range, C_scheme, sp_scheme_char, sp_alnum, sp_alpha, sp_digit. cbn [existsb fst snd]. lia.
+Qed.
+
+Lemma scheme_tail_run (s r : bytes) : Forall (fun c => in_ranges c C_scheme = true) s ->
+  scheme_tail (s ++ 58 :: r) = true.
+Proof.
+  induction 1 as [|c s Hc Hs IH]; [reflexivity|]. cbn [app scheme_tail].
+  destruct (scheme_cls_sp c Hc) as (S1 & _ & S3).
+  destruct (c =? 58) eqn:E; [reflexivity|]. rewrite S1, IH. reflexivity.
+Qed.
+
+Lemma scheme_spec_shape (d : bytes) : go_match S_scheme (decode_runes d) = true ->
+  exists c s r, d = c :: s ++ 58 :: r /\ sp_alpha c = true /\ Forall (fun x => in_ranges x C_scheme = true) s.
+Proof.
+  intros H. apply (go_match_M _ _ (wf_decode d)) in H as (a & m & b & E & H).
+  unfold S_scheme in H. apply M_Cat_inv in H as (s0 & m1 & -> & H0 & H).
+  apply M_BeginText_inv in H0 as [-> Ha]. cbn [last_or app] in *.
+  apply last_or_none_nil in Ha. subst a. cbn [app] in E.
+  apply M_Cat_inv in H as (s1 & m2 & -> & H1 & H).
+  apply M_Cls_inv in H1 as (c & -> & Hc).
+  apply M_Cat_inv in H as (s2 & s3 & -> & H2 & H3).
+  apply M_star_cls in H2. apply M_Cls_inv in H3 as (k & -> & Hk).
+  assert (k = 58) by (unfold in_ranges, in_range in Hk; cbn [existsb fst snd] in Hk; lia). subst k.
+  cbn [app] in E. rewrite <- app_assoc in E. cbn [app] in E.
+  assert (Hca : sp_alpha c = true /\ c < 128).
+  { unfold in_ranges, in_range, C_alpha in Hc. cbn [existsb fst snd] in Hc. unfold sp_alpha. lia. }
+  destruct Hca as [Hca Hc128].
+  change (c :: s2 ++ 58 :: b) with ((c :: s2) ++ 58 :: b) in E.
+  destruct (decode_split_ascii d (c :: s2) 58 b eq_refl E) as (a' & b' & -> & Ea & _).
+  assert (Hall : Forall (fun x => x < 128) (decode_runes a')).
+  { rewrite Ea. constructor; [exact Hc128|]. eapply Forall_impl; [|exact H2].
+    intros x Hx. destruct (scheme_cls_sp x Hx) as (_ & ? & _). assumption. }
+  rewrite (decode_all_ascii a' Hall) in Ea. subst a'.
+  exists c, s2, b'. split; [reflexivity|]. split; [exact Hca | exact H2].
+Qed.
+
+Lemma scheme_match_starts (d : bytes) : go_match_bytes G_startsWithFullySpecifiedSchemePattern d = true ->
+  starts_with_scheme d = true /\ In 58 d.
+Proof.
+  intros H. unfold go_match_bytes in H. apply (go_incl _ _ bridge_scheme_ok) in H.
+  destruct (scheme_spec_shape d H) as (c & s & r & -> & Hc & Hs). split.
+  - cbn [starts_with_scheme]. rewrite Hc, (scheme_tail_run s r Hs). reflexivity.
+  - right. apply in_or_app. right. left. reflexivity.
+Qed.
+
+Lemma no_delim_index (d : bytes) : existsb url_delim d = false -> index_any [47; 63; 35] d = None.
+Proof.
+  induction d as [|c t IH]; [reflexivity|]. cbn [existsb index_any]. intros H.
+  apply orb_false_iff in H as [Hc Ht]. rewrite (IH Ht).
+  unfold url_delim in Hc. unfold mem_N. cbn [existsb]. rewrite orb_false_r.
+  rewrite orb_assoc, Hc. reflexivity.
+Qed.
+
+(* C14_prefix_rejected, second half *)
+Theorem prefix_rejected_scheme (p : bytes) :
+  could_complete_to_scheme (html_unescape p) = true -> validate_url_prefix p = false.
+Proof.
+  unfold could_complete_to_scheme, validate_url_prefix. intros H. apply andb_true_iff in H as [Hd Hs].
+  apply negb_true_iff in Hd, Hs.
+  destruct (decode_url_prefix p) as [d|] eqn:E; [|reflexivity].
+  apply decode_url_prefix_some in E as (-> & _).
+  destruct (go_match_bytes G_startsWithFullySpecifiedSchemePattern (html_unescape p)) eqn:G.
+  - apply scheme_match_starts in G as [G _]. congruence.
+  - rewrite (no_delim_index _ Hd). reflexivity.
+Qed.
+
+Theorem prefix_rejected (p : bytes) :
+  (has_ws_or_ctrl p = true \/ has_ws_or_ctrl (html_unescape p) = true \/
+   ends_with_partial_charref p = true \/ ends_with_partial_pct (html_unescape p) = true ->
+   decode_url_prefix p = None /\ validate_url_prefix p = false /\ validate_tru_prefix p = false) /\
+  (could_complete_to_scheme (html_unescape p) = true -> validate_url_prefix p = false).
+Proof.
+  split; [|apply prefix_rejected_scheme].
+  intros H. pose proof (prefix_rejected_decode p H) as E. split; [exact E|].
+  unfold validate_url_prefix, validate_tru_prefix. rewrite E. split; reflexivity.
+Qed.
+
+(* the whole rejection clause of the property, as the oracle evaluates it *)
+Theorem must_reject_rejected (p : bytes) : must_reject html_unescape p = true -> validate_url_prefix p = false.
+Proof.
+  unfold must_reject. intros H.
+  apply orb_true_iff in H as [H|H]; [|apply prefix_rejected_scheme; exact H].
+  assert (X : has_ws_or_ctrl p = true \/ has_ws_or_ctrl (html_unescape p) = true \/
+              ends_with_partial_charref p = true \/ ends_with_partial_pct (html_unescape p) = true).
+  { apply orb_true_iff in H as [H|H]; [|auto].
+    apply orb_true_iff in H as [H|H]; [|auto].
+    apply orb_true_iff in H as [H|H]; auto. }
+  unfold validate_url_prefix. rewrite (prefix_rejected_decode p X). reflexivity.
+Qed.
+
+Example rejects_tab_reference : validate_url_prefix (B "/a&Tab;") = false /\ has_ws_or_ctrl (html_unescape (B "/a&Tab;")) = true.
+Proof. split; vm_compute; reflexivity. Qed.
+Example rejects_partial_reference : validate_url_prefix (B "/a?x=1&am") = false /\ ends_with_partial_charref (B "/a?x=1&am") = true.
+Proof. split; vm_compute; reflexivity. Qed.
+Example rejects_partial_escape : validate_url_prefix (B "/a%4") = false /\ ends_with_partial_pct (B "/a%4") = true.
+Proof. split; vm_compute; reflexivity. Qed.
+Example rejects_scheme_prefix : validate_url_prefix (B "java") = false /\ could_complete_to_scheme (B "java") = true.
+Proof. split; vm_compute; reflexivity. Qed.
+Example accepts_path_prefix : validate_url_prefix (B "/foo/") = true /\ must_reject html_unescape (B "/foo/") = false.
+Proof. split; vm_compute; reflexivity. Qed.
+
+(* ================================================================== *)
+(* Part E: an accepted prefix fixes the scheme, whatever normalised text follows *)
+
+Lemma scheme_state_cut (q : list N) c r r' : scheme_char c = false ->
+  forall buf, scheme_state (q ++ c :: r) buf = scheme_state (q ++ c :: r') buf.
+Proof.
+  intros Hc. induction q as [|x q IH]; intros buf; cbn [app scheme_state].
+  - rewrite Hc. reflexivity.
+  - destruct (scheme_char x); [apply IH | reflexivity].
+Qed.
+
+Lemma scheme_start_cut (q : list N) c r r' : scheme_char c = false ->
+  scheme_start_state (q ++ c :: r) = scheme_start_state (q ++ c :: r').
+Proof.
+  intros Hc. destruct q as [|x q]; cbn [app scheme_start_state].
+  - assert (E : ascii_alpha c = false).
+    { unfold scheme_char, ascii_alphanumeric in Hc. destruct (ascii_alpha c); [|reflexivity].
+      rewrite orb_true_r in Hc. discriminate. }
+    rewrite E. reflexivity.
+  - destruct (ascii_alpha x); [apply scheme_state_cut; exact Hc | reflexivity].
+Qed.
+
+Lemma strip_trailing_id (w : list N) : Forall (fun c => c0_or_space c = false) w -> strip_trailing w = w.
+Proof.
+  induction 1 as [|c t Hc Ht IH]; [reflexivity|]. cbn [strip_trailing]. rewrite IH.
+  destruct t; [rewrite Hc|]; reflexivity.
+Qed.
+
+Lemma url_preprocess_id (w : list N) : Forall (fun c => c0_or_space c = false) w -> url_preprocess w = w.
+Proof.
+  intros H. unfold url_preprocess.
+  assert (E : strip_leading w = w) by (destruct H as [|c t Hc Ht]; [reflexivity | cbn [strip_leading]; rewrite Hc; reflexivity]).
+  rewrite E, (strip_trailing_id w H). apply remove_tab_newline_keep. exact H.
+Qed.
+
+Lemma decode_app_ascii_suffix (b d : bytes) : Forall (fun c => c < 128) d ->
+  decode_runes (b ++ d) = decode_runes b ++ d.
+Proof.
+  intros H. destruct H as [|x d' Hx Hd]; [rewrite !app_nil_r; reflexivity|].
+  rewrite (decode_app_ascii b x d' Hx), (decode_runes_ascii d' Hd). reflexivity.
+Qed.
+
+Lemma index_any_some (set s : bytes) n : index_any set s = Some n -> exists c, In c s /\ In c set.
+Proof.
+  revert n. induction s as [|c t IH]; intros n; [discriminate|]. cbn [index_any].
+  destruct (mem_N c set) eqn:E.
+  - intros _. exists c. split; [left; reflexivity | apply mem_N_In; exact E].
+  - destruct (index_any set t) as [i|]; [|discriminate]. intros _.
+    destruct (IH i eq_refl) as (x & Hx & Hs). exists x. split; [right; exact Hx | exact Hs].
+Qed.
+
+Lemma normalized_not_space c : normalized_byte c = true -> c0_or_space c = false.
+Proof.
+  unfold normalized_byte, sp_alnum, sp_alpha, sp_digit, normalized_marks, mem_N, c0_or_space. cbn [existsb]. lia.
+Qed.
+
+(* an accepted prefix contains a byte that ends the scheme question: ':' after a complete scheme,
+   or one of  / ? #  *)
+Lemma accepted_prefix_shape (p : bytes) : validate_url_prefix p = true ->
+  decode_url_prefix p = Some (html_unescape p) /\
+  Forall (fun c => c0_or_space c = false) (decode_runes (html_unescape p)) /\
+  exists c, In c (html_unescape p) /\ (c = 58 \/ c = 47 \/ c = 63 \/ c = 35).
+Proof.
+  unfold validate_url_prefix. destruct (decode_url_prefix p) as [d|] eqn:E; [|discriminate].
+  pose proof E as E'. apply decode_url_prefix_some in E' as (-> & _ & _ & E3 & _).
+  intros H. split; [reflexivity|]. split; [apply no_ws_runes; [apply wf_decode | exact E3]|].
+  destruct (go_match_bytes G_startsWithFullySpecifiedSchemePattern (html_unescape p)) eqn:G.
+  - apply scheme_match_starts in G as [_ G]. exists 58. auto.
+  - destruct (index_any [47; 63; 35] (html_unescape p)) as [i|] eqn:I; [|discriminate].
+    destruct (index_any_some _ _ _ I) as (c & Hc & Hs). exists c. split; [exact Hc|].
+    cbn [In] in Hs. intuition.
+Qed.
+
+(* C14_prefix_scheme_fixed *)
+Theorem prefix_scheme_fixed (p : bytes) : validate_url_prefix p = true ->
+  forall d, forallb normalized_byte d = true ->
+  whatwg_scheme (decode_runes (html_unescape p ++ d)) = whatwg_scheme (decode_runes (html_unescape p)).
+Proof.
+  intros H d Hd. destruct (accepted_prefix_shape p H) as (_ & Hw & c & Hin & Hc).
+  assert (Hc128 : c < 128) by lia.
+  assert (Hsc : scheme_char c = false).
+  { unfold scheme_char, ascii_alphanumeric, ascii_digit, ascii_alpha, ascii_upper_alpha, ascii_lower_alpha. lia. }
+  assert (Hda : Forall (fun x => x < 128) d).
+  { apply Forall_forall. intros x Hx. rewrite forallb_forall in Hd. apply normalized_byte_small. apply Hd. exact Hx. }
+  assert (Hds : Forall (fun x => c0_or_space x = false) d).
+  { apply Forall_forall. intros x Hx. rewrite forallb_forall in Hd. apply normalized_not_space. apply Hd. exact Hx. }
+  apply in_split in Hin as (a & b & E). rewrite E in *. clear E.
+  rewrite <- app_assoc. cbn [app].
+  rewrite (decode_app_ascii a c (b ++ d) Hc128), (decode_app_ascii a c b Hc128) in *.
+  rewrite (decode_app_ascii_suffix b d Hda).
+  apply Forall_app in Hw as [Hwa Hwb]. inversion Hwb as [|? ? Hcs Hwb']; subst.
+  unfold whatwg_scheme. rewrite !url_preprocess_id.
+  - apply scheme_start_cut. exact Hsc.
+  - apply Forall_app. split; [exact Hwa | constructor; assumption].
+  - apply Forall_app. split; [exact Hwa|]. constructor; [exact Hcs|]. apply Forall_app. split; assumption.
+Qed.
+
+(* in particular for what the two processors write *)
+Corollary prefix_scheme_fixed_normalized (p v : bytes) : validate_url_prefix p = true -> wf_bytes v ->
+  whatwg_scheme (decode_runes (html_unescape p ++ normalize_url v)) = whatwg_scheme (decode_runes (html_unescape p)).
+Proof. intros H Hv. apply prefix_scheme_fixed; [exact H | apply normalize_alphabet; exact Hv]. Qed.
+
+Lemma plain_normalized c : plain_byte c -> normalized_byte c = true.
+Proof.
+  intros H. pose proof (plain_byte_range c H).
+  assert (T : forallb (fun c => negb (sp_unreserved c || (c =? 37) || sp_hex c) || normalized_byte c) all_bytes = true)
+    by (vm_compute; reflexivity).
+  pose proof (forall_byte _ T c ltac:(lia)) as E. cbn beta in E.
+  assert (X : sp_unreserved c || (c =? 37) || sp_hex c = true).
+  { destruct H as [H|[H|H]]; [rewrite H; reflexivity | subst; reflexivity | rewrite H; apply orb_true_r]. }
+  rewrite X in E. exact E.
+Qed.
+
+Corollary prefix_scheme_fixed_escaped (p v : bytes) : validate_url_prefix p = true -> wf_bytes v ->
+  whatwg_scheme (decode_runes (html_unescape p ++ query_escape_url v)) = whatwg_scheme (decode_runes (html_unescape p)).
+Proof.
+  intros H Hv. apply prefix_scheme_fixed; [exact H|]. apply forallb_forall. intros c Hin.
+  apply plain_normalized. pose proof (escape_plain v Hv) as P. rewrite Forall_forall in P. apply P. exact Hin.
+Qed.
+
+Example scheme_fixed_example :
+  validate_url_prefix (B "j&sol;") = true /\
+  whatwg_scheme (decode_runes (html_unescape (B "j&sol;") ++ B "avascript:alert(1)")) = None /\
+  validate_url_prefix (B "mailto:") = true /\
+  whatwg_scheme (decode_runes (html_unescape (B "mailto:") ++ B "javascript:x")) = Some (B "mailto").
+Proof. repeat split; vm_compute; reflexivity. Qed.
+
+(* ================================================================== *)
+(* the statements of C14_normalized, collected *)
+Theorem normalized_summary (v : bytes) : wf_bytes v ->
+  let n := normalize_url v in
+  forallb normalized_byte n = true /\ pct_ok n = true /\ normalize_url n = n /\ norm_rel v n = true /\
+  (forall a b h1 h2, v = a ++ [37; h1; h2] ++ b -> sp_hex h1 = true -> sp_hex h2 = true ->
+     n = normalize_url a ++ [37; h1; h2] ++ normalize_url b) /\
+  (forall a, v = a ++ [37] -> n = normalize_url a ++ B "%25") /\
+  (forall a h, v = a ++ [37; h] -> sp_hex h = true -> n = normalize_url a ++ B "%25" ++ [h]).
+Proof.
+  intros H n. split; [apply normalize_alphabet; exact H|]. split; [apply normalize_pct_ok; exact H|].
+  split; [apply normalize_idempotent; exact H|]. split; [apply normalize_norm_rel; exact H|].
+  split; [intros a b h1 h2 -> H1 H2; apply normalize_keeps_escapes; assumption|].
+  split; [intros a ->; apply normalize_partial_escape_end|].
+  intros a h -> Hh. apply (normalize_partial_escape_end a). exact Hh.
+Qed.
+
+Example normalized_example :
+  normalize_url (B "a b%41%4<%zz'") = B "a%20b%41%254%3c%25zz%27" /\ query_escape_url (B "a&b=%41") = B "a%26b%3d%2541".
+Proof. split; vm_compute; reflexivity. Qed.
